@@ -1,5 +1,1010 @@
-"""Model families F1-F4 (closed-form reference models).  Filled in below."""
+"""
+Model families (oracle L3): small program generators that come with a closed-form
+reference model.  The models are tiny sequential interpreters over the
+*generator's* item list; they share nothing with nmfu (no AST, no DFA).
+
+  F1 frames   literals / fixed fields / open fields with terminators / actions /
+              yields / wait / one try-catch wrapper / tails (DONE, finish, finish CODE,
+              `end` + actions)                      -> C10, C03 (out-of-space), C17
+  F2 lexer    loop { greedy case { ... } } tokenizer -> C10 (yield protocol)
+  F3 eof      case { rec -> ..  end -> ..  else -> .. } and data/EOF separation -> C17
+
+Findings use oracles F1 (protocol / procedural trace), F1M (out-of-space timing, C03),
+F1E / F3 (end() results, C17), F2 (token stream).
+"""
+import os
+
+from . import sched, workload, oracles, engine
+
+LET = [ord(c) for c in "abcdefghijklmnopqrstuvwxyz"]
+DIG = [ord(c) for c in "0123456789"]
+PUN = [ord(c) for c in ",;:=#@!-_~"]
+
+
+def esc(bs):
+    out = ""
+    for b in bs:
+        c = chr(b)
+        if c in '"\\':
+            out += "\\" + c
+        elif 32 <= b < 127:
+            out += c
+        else:
+            out += "\\x%02x" % b
+    return '"' + out + '"'
+
+
+def cls_text(lo, hi):
+    return "[%s-%s]" % (chr(lo), chr(hi))
+
+
+# =====================================================================================
+# F1 generator
+# =====================================================================================
+
+def gen_f1(rng, force=None):
+    force = force or {}
+    r = rng
+    spec = {"family": "F1", "outputs": [], "items": [], "tail": None}
+    outs = spec["outputs"]
+    strs = []
+    for i in range(r.choice((1, 2, 2))):
+        size = r.choice((2, 3, 4, 6, 9))
+        unterm = r.random() < 0.25
+        outs.append({"name": "s%d" % i, "type": "STR", "size": size, "unterm": unterm, "cap": size if unterm else size - 1})
+        strs.append(outs[-1])
+        outs.append({"name": "zc%d" % i, "type": "INT", "init": 90, "canary": True})
+    outs.append({"name": "n0", "type": "INT", "init": 0})
+    outs.append({"name": "b0", "type": "BOOL", "init": 0})
+    hooks = ["h0", "h1", "h2", "bad", "over"]
+    use_yield = force.get("yield", r.random() < 0.5)
+    ycodes = ["YA", "YB"] if use_yield else []
+    fcodes = ["TOO", "FIN"]
+    pools = [(97, 102), (103, 108), (109, 116), (117, 122), (48, 57)]
+
+    def lit(avoid=()):
+        for _ in range(20):
+            bs = [r.choice(LET + DIG + PUN)] + [r.choice(LET + DIG) for _ in range(r.choice((0, 1, 2, 3)))]
+            if bs[0] not in avoid:
+                break
+        k = r.random()
+        return {"t": "lit", "bytes": bs, "ci": k < 0.2 and all(b in LET for b in bs), "bin": 0.2 <= k < 0.3}
+
+    def actions(n):
+        acts = []
+        for _ in range(n):
+            k = r.random()
+            if k < 0.4:
+                acts.append({"t": "hook", "name": r.choice(hooks[:3])})
+            elif k < 0.6:
+                acts.append({"t": "inc", "var": "n0", "k": r.choice((1, 2, 10))})
+            elif k < 0.7:
+                acts.append({"t": "setb", "var": "b0", "val": r.choice((0, 1))})
+            elif k < 0.8 and strs:
+                acts.append({"t": "del", "dest": r.choice(strs)["name"]})
+            elif ycodes:
+                acts.append({"t": "yield", "code": r.choice(ycodes)})
+            else:
+                acts.append({"t": "hook", "name": r.choice(hooks[:3])})
+        return acts
+
+    def segment():
+        """a few match items, each possibly followed by actions; always ends with a closed match"""
+        seg = []
+        for _ in range(r.choice((1, 2, 3))):
+            k = r.random()
+            if k < 0.35:
+                seg.append(lit())
+            elif k < 0.55:
+                lo, hi = r.choice(pools)
+                seg.append({"t": "fixed", "cls": [lo, hi], "n": r.choice((1, 2, 3)), "dest": r.choice(strs)["name"] if strs and r.random() < 0.6 else None})
+            elif k < 0.9 and strs:
+                lo, hi = r.choice(pools)
+                seg.append({"t": "field", "cls": [lo, hi], "dest": r.choice(strs)["name"]})
+                term = [r.choice([c for c in PUN + LET + DIG if not (lo <= c <= hi)])]
+                seg.append({"t": "lit", "bytes": term, "ci": False, "bin": False})
+            else:
+                seg.append({"t": "wait", "bytes": [r.choice(PUN)] + [r.choice(LET) for _ in range(r.choice((0, 1, 2)))]})
+            seg += actions(r.choice((0, 0, 1, 2)))
+        return seg
+
+    items = segment()
+    shape = force.get("try", r.choice(("none", "oos-finish", "oos-wait", "nomatch-wait", "f4", "none")))
+    if shape == "oos-finish" and strs:
+        body = segment()
+        items.append({"t": "try", "kinds": ["oos"], "body": body, "handler": {"t": "finish", "code": "TOO"}})
+    elif shape == "oos-wait" and strs:
+        body = segment()
+        items.append({"t": "try", "kinds": ["oos"], "body": body, "handler": {"t": "wait", "hook": "over", "term": r.choice(PUN)}})
+    elif shape == "nomatch-wait":
+        body = segment()
+        items.append({"t": "try", "kinds": ["nomatch"], "body": body, "handler": {"t": "wait", "hook": "bad", "term": r.choice(PUN)}})
+    elif shape == "f4":
+        head = lit()
+        w = {"t": "wait", "bytes": [r.choice(PUN)] + [r.choice(LET) for _ in range(r.choice((0, 1, 2)))]}
+        body = [head, w, {"t": "hook", "name": "h2"}] + (segment() if r.random() < 0.5 else [])
+        items.append({"t": "try", "kinds": ["nomatch", "oos"], "body": body, "handler": {"t": "wait", "hook": "bad", "term": r.choice(PUN)}})
+    if r.random() < 0.6:
+        items += segment()
+    # the program must end with a closed match before the tail (no open field last)
+    tail_kind = force.get("tail", r.choice(("done", "done", "finish", "finishcode", "end", "end")))
+    tail = {"kind": tail_kind, "actions": [], "code": None}
+    if tail_kind in ("end",):
+        tail["actions"] = [a for a in actions(r.choice((0, 1, 2))) if a["t"] != "yield"]
+        if r.random() < 0.3:
+            tail["code"] = "FIN"
+    elif tail_kind == "finishcode":
+        tail["code"] = "FIN"
+    spec["items"] = items
+    spec["tail"] = tail
+    spec["hooks"] = hooks
+    spec["ycodes"] = ycodes
+    spec["fcodes"] = fcodes
+    spec["source"] = render_f1(spec)
+    need = []
+    if ycodes:
+        need.append("-fyield-support")
+    if tail_kind == "end":
+        need.append("-feof-support")
+    spec["need"] = need
+    return spec
+
+
+def render_item(it, ind):
+    p = "    " * ind
+    t = it["t"]
+    if t == "lit":
+        if it.get("bin"):
+            return [p + '"%s"b;' % " ".join("%02x" % b for b in it["bytes"])]
+        return [p + esc(it["bytes"]) + ("i;" if it.get("ci") else ";")]
+    if t == "fixed":
+        m = "/%s{%d}/" % (cls_text(*it["cls"]), it["n"])
+        return [p + ("%s += %s;" % (it["dest"], m) if it["dest"] else m + ";")]
+    if t == "field":
+        return [p + "%s += /%s+/;" % (it["dest"], cls_text(*it["cls"]))]
+    if t == "wait":
+        return [p + "wait %s;" % esc(it["bytes"])]
+    if t == "hook":
+        return [p + "%s();" % it["name"]]
+    if t == "inc":
+        return [p + "%s = [%s + %d];" % (it["var"], it["var"], it["k"])]
+    if t == "setb":
+        return [p + "%s = %s;" % (it["var"], "true" if it["val"] else "false")]
+    if t == "del":
+        return [p + "delete %s;" % it["dest"]]
+    if t == "yield":
+        return [p + "yield %s;" % it["code"]]
+    if t == "try":
+        L = [p + "try {"]
+        for x in it["body"]:
+            L += render_item(x, ind + 1)
+        kinds = ", ".join("outofspace" if k == "oos" else "nomatch" for k in it["kinds"])
+        L.append(p + "}")
+        L.append(p + "catch (%s) {" % kinds)
+        h = it["handler"]
+        if h["t"] == "finish":
+            L.append(p + "    finish %s;" % h["code"])
+        else:
+            if h.get("hook"):
+                L.append(p + "    %s();" % h["hook"])
+            L.append(p + "    wait %s;" % esc([h["term"]]))
+        L.append(p + "}")
+        return L
+    raise ValueError(t)
+
+
+def render_f1(spec):
+    L = []
+    for o in spec["outputs"]:
+        if o["type"] == "STR":
+            L.append("out %sstr[%d] %s;" % ("unterminated " if o["unterm"] else "", o["size"], o["name"]))
+        elif o["type"] == "INT":
+            L.append("out int%s %s = %d;" % ("{size 1}" if o.get("canary") else "", o["name"], o["init"]))
+        elif o["type"] == "BOOL":
+            L.append("out bool %s = false;" % o["name"])
+    for h in spec["hooks"]:
+        L.append("hook %s;" % h)
+    L.append("finishcode %s;" % ", ".join(spec["fcodes"]))
+    if spec["ycodes"]:
+        L.append("yieldcode %s;" % ", ".join(spec["ycodes"]))
+    L.append("")
+    L.append("parser {")
+    for it in spec["items"]:
+        L += render_item(it, 1)
+    t = spec["tail"]
+    if t["kind"] == "finish":
+        L.append("    finish;")
+    elif t["kind"] == "finishcode":
+        L.append("    finish %s;" % t["code"])
+    elif t["kind"] == "end":
+        L.append("    end;")
+        for a in t["actions"]:
+            L += render_item(a, 1)
+        if t["code"]:
+            L.append("    finish %s;" % t["code"])
+    L.append("}")
+    return "\n".join(L) + "\n"
+
+
+# =====================================================================================
+# F1 model
+# =====================================================================================
+
+class NeedInput(Exception):
+    pass
+
+
+class PErr(Exception):
+    def __init__(self, kind):
+        self.kind = kind
+
+
+class Term(Exception):
+    def __init__(self, code):
+        self.code = code
+
+
+class F1Model:
+    def __init__(self, spec, data):
+        self.spec = spec
+        self.data = data
+        self.pos = 0
+        self.out = {}
+        for o in spec["outputs"]:
+            self.out[o["name"]] = bytearray() if o["type"] == "STR" else o["init"]
+        self.caps = {o["name"]: o["cap"] for o in spec["outputs"] if o["type"] == "STR"}
+        self.events = []          # {"kind","name","k","snap","opt","taint"}
+        self.since = []           # indices of events emitted since the last consumed byte
+        self.silent_since = False
+        self.taint = False
+        self.where = None         # what the machine was doing when input ran out
+        self.in_try = []
+        self.oos_events = []      # (k, dest) out-of-space instants
+        self.terminal = None      # (code, k)
+        self.finished_clean = False
+
+    # ---- primitives
+    def snap(self):
+        parts = []
+        for o in self.spec["outputs"]:
+            v = self.out[o["name"]]
+            if o["type"] == "STR":
+                parts.append("%s=%d:%s" % (o["name"], len(v), bytes(v).hex()))
+            else:
+                parts.append("%s=%d" % (o["name"], int(v)))
+        return ";".join(parts)
+
+    def peek(self, where):
+        if self.pos >= len(self.data):
+            self.where = where
+            self.where_handlers = [t["handler"].get("hook") for t in self.in_try if t["handler"]["t"] == "wait"]
+            raise NeedInput()
+        return self.data[self.pos]
+
+    def consume(self):
+        self.pos += 1
+        self.since = []
+        self.silent_since = False
+
+    def emit(self, kind, name):
+        self.events.append({"kind": kind, "name": name, "k": self.pos, "snap": self.snap(), "opt": False, "taint": self.taint})
+        self.since.append(len(self.events) - 1)
+
+    def error(self, kind):
+        # actions pending when an error strikes may or may not have run
+        for i in self.since:
+            self.events[i]["opt"] = True
+        if self.silent_since:
+            self.taint = True
+        self.since = []
+        self.silent_since = False
+        raise PErr(kind)
+
+    def append(self, dest, b):
+        if len(self.out[dest]) >= self.caps[dest]:
+            self.oos_events.append((self.pos, dest))
+            self.error("oos")
+        self.out[dest].append(b)
+
+    # ---- items
+    def run_item(self, it):
+        t = it["t"]
+        if t == "lit":
+            for j, b in enumerate(it["bytes"]):
+                c = self.peek(("lit", j))
+                ok = (c == b) or (it.get("ci") and chr(c).lower() == chr(b).lower() and chr(c).isalpha())
+                if not ok:
+                    self.error("nomatch")
+                self.consume()
+        elif t == "fixed":
+            lo, hi = it["cls"]
+            for j in range(it["n"]):
+                c = self.peek(("fixed", j))
+                if not (lo <= c <= hi):
+                    self.error("nomatch")
+                if it["dest"]:
+                    self.append(it["dest"], c)
+                self.consume()
+        elif t == "field":
+            lo, hi = it["cls"]
+            c = self.peek(("field", 0))
+            if not (lo <= c <= hi):
+                self.error("nomatch")
+            self.append(it["dest"], c)
+            self.consume()
+            while True:
+                c = self.peek(("field", 1))
+                if not (lo <= c <= hi):
+                    break
+                self.append(it["dest"], c)
+                self.consume()
+        elif t == "wait":
+            self.wait(it["bytes"])
+        elif t == "hook":
+            self.emit("hook", it["name"])
+        elif t == "inc":
+            self.out[it["var"]] = ((self.out[it["var"]] + it["k"] + 2 ** 31) % 2 ** 32) - 2 ** 31
+            self.silent_since = True
+        elif t == "setb":
+            self.out[it["var"]] = it["val"]
+            self.silent_since = True
+        elif t == "del":
+            self.out[it["dest"]] = bytearray()
+            self.silent_since = True
+        elif t == "yield":
+            self.emit("yield", it["code"])
+        elif t == "try":
+            try:
+                self.in_try.append(it)
+                try:
+                    for x in it["body"]:
+                        self.run_item(x)
+                finally:
+                    self.in_try.pop()
+            except PErr as e:
+                if e.kind not in it["kinds"]:
+                    raise
+                h = it["handler"]
+                if h["t"] == "finish":
+                    raise Term("FINISH_" + h["code"])
+                if h.get("hook"):
+                    self.emit("hook", h["hook"])
+                self.wait([h["term"]])
+        else:
+            raise ValueError(t)
+
+    def wait(self, pat):
+        """restart semantics: after a mismatch resume from the pattern's beginning with the
+        offending byte, which is skipped if it cannot start the pattern"""
+        j = 0
+        while j < len(pat):
+            c = self.peek(("wait", j))
+            if c == pat[j]:
+                j += 1
+                self.consume()
+            elif j > 0:
+                j = 0          # re-dispatch the same byte at the pattern start
+            else:
+                self.consume()
+
+    def run(self):
+        try:
+            for it in self.spec["items"]:
+                self.run_item(it)
+            t = self.spec["tail"]
+            if t["kind"] == "done":
+                self.finished_clean = not self.since and not self.silent_since
+                raise Term("DONE")
+            if t["kind"] == "finish":
+                raise Term("DONE")
+            if t["kind"] == "finishcode":
+                raise Term("FINISH_" + t["code"])
+            if t["kind"] == "end":
+                self.peek(("end", 0))      # raises NeedInput at end of data
+                self.error("nomatch")      # a data byte never matches `end`
+        except NeedInput:
+            for i in self.since:
+                self.events[i]["opt"] = True
+            return
+        except PErr:
+            self.terminal = ("FAIL", self.pos)
+        except Term as t:
+            self.terminal = (t.code, self.pos)
+
+    # ---- what end() must return after exactly this input
+    def eof_expectation(self):
+        """None = not decided by the model; else (code, [tail events] | None)"""
+        if self.terminal is not None:
+            if self.terminal[0] == "DONE" and self.spec["tail"]["kind"] == "done" and self.finished_clean and self.pos == len(self.data):
+                return ("DONE", [])
+            if self.terminal[0] == "FAIL":
+                return ("FAIL", None)
+            return None
+        w = self.where
+        if w is None:
+            return None
+        if w[0] == "end":
+            if self.taint or self.silent_since or self.since:
+                # actions pending between the last byte and EOF: their fate is left open
+                pass
+            m = F1Model.__new__(F1Model)
+            m.__dict__.update(self.__dict__)
+            m.out = {k: (bytearray(v) if isinstance(v, bytearray) else v) for k, v in self.out.items()}
+            pending = [self.events[i]["name"] for i in self.since if self.events[i]["kind"] == "hook"]
+            if any(self.events[i]["kind"] == "yield" for i in self.since):
+                return None    # a yield pending at EOF: end() returns it first; left to the laws
+            m.events = []
+            m.since = []
+            t = self.spec["tail"]
+            for a in t["actions"]:
+                m.run_item(a)
+            code = "FINISH_" + t["code"] if t["code"] else "DONE"
+            return (code, m.events, pending)
+        if w[0] == "wait":
+            # EOF during a wait does not enter an enclosing handler
+            return ("FAIL", ("NOHANDLER", [h for h in getattr(self, "where_handlers", []) if h]))
+        return ("FAIL", None)
+
+
+def observed_events(canon):
+    obs = []
+    for st in canon.steps:
+        for (name, inval, pos, snap) in st.events:
+            obs.append({"kind": "hook", "name": name, "snap": snap, "pos": pos, "byte": st.i})
+        if st.cls == "YIELD":
+            obs.append({"kind": "yield", "name": st.code[len("YIELD_"):], "snap": st.snap, "pos": st.pos_after, "byte": st.i})
+        elif st.cls in ("FAIL", "DONE", "FINISH"):
+            obs.append({"kind": "term", "name": st.code, "snap": st.snap, "pos": st.pos_after, "byte": st.i})
+            break
+    return obs
+
+
+def check_f1(spec, data, canon, flags):
+    """Compare the canonical trace of the real parser with the model.  Returns findings."""
+    out = []
+    m = F1Model(spec, data)
+    m.run()
+    indirect = flags["INDIRECT_START_PTR"]
+    obs = observed_events(canon)
+    # bytes consumed by the real parser
+    if canon.terminal_at is not None:
+        consumed = canon.steps[canon.terminal_at].i
+    else:
+        consumed = len(data)
+    mev = list(m.events)
+    if m.terminal is not None:
+        mev.append({"kind": "term", "name": m.terminal[0], "k": m.terminal[1], "snap": None, "opt": False, "taint": m.taint})
+    j = 0
+    F = lambda kind, detail, oracle="F1": out.append(oracles.V(oracle, kind, -1, 0, detail))
+    for o in obs:
+        # skip optional model events that do not match
+        while j < len(mev) and mev[j]["opt"] and not (mev[j]["kind"] == o["kind"] and mev[j]["name"] == o["name"]):
+            j += 1
+        if j >= len(mev):
+            F("event-not-in-model", "parser produced %s %s at byte %d but the procedural reading has no further event (model events: %s)" % (
+                o["kind"], o["name"], o["byte"], _mev(mev)))
+            return out
+        e = mev[j]
+        if (e["kind"], e["name"]) != (o["kind"], o["name"]):
+            F("event-order-or-identity", "parser produced %s %s at byte %d where the procedural reading prescribes %s %s after %d bytes (model events: %s)" % (
+                o["kind"], o["name"], o["byte"], e["kind"], e["name"], e["k"], _mev(mev)))
+            return out
+        # an event cannot happen before the bytes that precede it in the program were consumed
+        if o["byte"] < e["k"] - 1 and o["kind"] != "term":
+            F("event-too-early", "%s %s fired while byte %d was in flight, the program reaches it after %d bytes" % (o["kind"], o["name"], o["byte"], e["k"]))
+            return out
+        if o["kind"] == "hook" and not e["taint"] and o["snap"] != e["snap"]:
+            F("outputs-at-hook", "hook %s after %d bytes: model outputs %s, parser outputs %s" % (o["name"], e["k"], e["snap"], o["snap"]))
+            return out
+        if o["kind"] == "yield" and indirect and o["pos"] != e["k"]:
+            F("yield-pointer", "yield %s: start pointer at %d, bytes consumed by the program %d" % (o["name"], o["pos"], e["k"]))
+            return out
+        if o["kind"] == "yield" and not e["taint"] and o["snap"] != e["snap"]:
+            F("outputs-at-yield", "yield %s after %d bytes: model outputs %s, parser outputs %s" % (o["name"], e["k"], e["snap"], o["snap"]))
+            return out
+        if o["kind"] == "term":
+            k = e["k"]
+            if o["name"] == "FAIL":
+                if indirect and o["pos"] != k:
+                    F("fail-pointer", "FAIL left the start pointer at %d, the first offending byte is %d" % (o["pos"], k))
+                    return out
+                if o["byte"] != k:
+                    F("fail-timing", "FAIL returned while byte %d was in flight, the offending byte is %d" % (o["byte"], k))
+                    return out
+            else:
+                if o["byte"] not in (k - 1, k):
+                    F("terminal-timing", "%s returned while byte %d was in flight, the program finishes after %d bytes" % (o["name"], o["byte"], k))
+                    return out
+        j += 1
+    # everything the model prescribes for fully consumed bytes must have happened
+    if not any(o["kind"] == "term" for o in obs):
+        for e in mev[j:]:
+            if e["opt"]:
+                continue
+            if e["k"] < consumed:
+                F("event-missing", "procedural reading prescribes %s %s after %d bytes; parser consumed %d bytes without it (parser events: %s)" % (
+                    e["kind"], e["name"], e["k"], consumed, [(o["kind"], o["name"], o["byte"]) for o in obs]))
+                return out
+            if e["kind"] == "term" and e["name"] == "FAIL" and e["k"] < len(data):
+                F("fail-missing", "procedural reading fails at byte %d; parser consumed %d bytes without FAIL" % (e["k"], consumed))
+                return out
+    # DONE must be immediate when the program ends with a match and strict-done is off
+    if m.terminal and m.terminal[0] == "DONE" and m.finished_clean and not flags["STRICT_DONE_TOKEN_GENERATION"] \
+            and spec["tail"]["kind"] == "done" and spec["items"] and spec["items"][-1]["t"] in ("lit", "fixed") \
+            and m.terminal[1] <= len(data):
+        t = [o for o in obs if o["kind"] == "term"]
+        if not t or t[0]["byte"] != m.terminal[1] - 1:
+            F("done-not-immediate", "program ends with the match of byte %d; DONE expected from that call, got %s" % (
+                m.terminal[1] - 1, [(x["name"], x["byte"]) for x in t]))
+    # final outputs when the parser stopped on a terminal code or at end of input without pending work
+    if not m.taint and canon.steps:
+        last = canon.steps[canon.terminal_at] if canon.terminal_at is not None else canon.steps[-1]
+        pend = m.silent_since or (m.terminal is None and m.where is None)
+        if m.terminal is not None and m.terminal[0] != "FAIL" and canon.terminal_at is not None and last.snap != m.snap():
+            F("final-outputs", "after %s: model outputs %s, parser outputs %s" % (m.terminal[0], m.snap(), last.snap))
+    # out-of-space instants (C03): the (cap+1)-th byte must not be stored; checked through the outputs
+    # at every later hook, and explicitly here through string lengths
+    for st in canon.steps:
+        for o in spec["outputs"]:
+            if o["type"] != "STR":
+                continue
+            mm = [x for x in st.snap.split(";") if x.startswith(o["name"] + "=")]
+            if mm:
+                cnt = int(mm[0].split("=")[1].split(":")[0])
+                if cnt > o["cap"]:
+                    F("capacity-exceeded", "%s holds %d bytes, capacity %d" % (o["name"], cnt, o["cap"]), "F1M")
+                    return out
+    return out
+
+
+def check_f1_eof(spec, data, canon, flags):
+    """end() after every prefix, against the model's EOF expectation."""
+    out = []
+    if not canon.has_end:
+        return out
+    n = len(data)
+    idx_of_prefix = {}
+    for j, st in enumerate(canon.steps):
+        if st.i not in idx_of_prefix:
+            idx_of_prefix[st.i] = j
+    idx_of_prefix[n] = len(canon.steps) if (not canon.steps or canon.steps[-1].cls == "OK") else None
+    for i in range(n + 1):
+        j = idx_of_prefix.get(i)
+        if j is None or j >= len(canon.eofs) or canon.eofs[j] is None:
+            continue
+        if canon.terminal_at is not None and j > canon.terminal_at:
+            break
+        m = F1Model(spec, data[:i])
+        m.run()
+        exp = m.eof_expectation()
+        if exp is None:
+            continue
+        group = canon.eofs[j]
+        code = group[-1].code
+        evs = [e for c in group for e in c.events]
+        if code != exp[0]:
+            # a program that is complete except for trailing work may legitimately still say DONE/FAIL differently
+            out.append(oracles.V("F1E", "end-result", -1, 0, "end() after %d bytes returned %s, the EOF contract prescribes %s (input %s)" % (
+                i, code, exp[0], data[:i].hex())))
+            return out
+        if isinstance(exp[1], tuple) and exp[1][0] == "NOHANDLER" and any(e[0] in exp[1][1] for e in evs):
+            out.append(oracles.V("F1E", "handler-entered-by-eof-during-wait", -1, 0, "end() after %d bytes (inside a wait) fired %s" % (i, [e[0] for e in evs])))
+            return out
+        if isinstance(exp[1], list):
+            want = [(e["name"], e["snap"]) for e in exp[1] if e["kind"] == "hook"]
+            got = [(e[0], e[3]) for e in evs]
+            # hooks that were still pending between the last byte and EOF may run first
+            pend = list(exp[2]) if len(exp) > 2 else []
+            while got and pend and len(got) > len(want):
+                if got[0][0] == pend[0]:
+                    got.pop(0)
+                pend.pop(0)
+            if not m.taint and want != got:
+                out.append(oracles.V("F1E", "end-actions", -1, 0, "end() after %d bytes: actions after `end` must run exactly once: model %s, parser %s" % (i, want, got)))
+                return out
+    return out
+
+
+def _mev(mev):
+    return [(e["kind"], e["name"], e["k"], "opt" if e["opt"] else "") for e in mev]
+
+
+def f1_inputs(rng, spec, count):
+    """valid sample, truncations, mutations, capacity stress"""
+    def sample(it, stress):
+        t = it["t"]
+        if t == "lit":
+            return bytes((b - 32 if it.get("ci") and rng.random() < 0.5 else b) for b in it["bytes"])
+        if t == "fixed":
+            lo, hi = it["cls"]
+            return bytes(rng.randint(lo, hi) for _ in range(it["n"]))
+        if t == "field":
+            lo, hi = it["cls"]
+            n = rng.choice((1, 2, 3)) if not stress else rng.choice((5, 9, 12))
+            return bytes(rng.randint(lo, hi) for _ in range(n))
+        if t == "wait":
+            junk = bytes(rng.choice(LET) for _ in range(rng.choice((0, 1, 3))))
+            if rng.random() < 0.4 and len(it["bytes"]) > 1:
+                junk += bytes(it["bytes"][:-1])
+            return junk + bytes(it["bytes"])
+        if t == "try":
+            return b"".join(sample(x, stress) for x in it["body"])
+        return b""
+    res = []
+    for k in range(count):
+        stress = k % 3 == 2
+        x = b"".join(sample(it, stress) for it in spec["items"])
+        r = rng.random()
+        if r < 0.25 and x:
+            x = x[:rng.randrange(len(x) + 1)]
+        elif r < 0.5 and x:
+            i = rng.randrange(len(x))
+            x = x[:i] + bytes([rng.choice(LET + PUN + [0, 255])]) + x[i + 1:]
+        elif r < 0.6:
+            x = x + bytes(rng.choice(LET + PUN) for _ in range(rng.choice((1, 2, 5))))
+        elif r < 0.7 and x:
+            i = rng.randrange(len(x))
+            x = x[:i] + bytes([rng.choice(PUN)]) + x[i:]
+        res.append(x[:96])
+    return res
+
+
+# =====================================================================================
+# F2 lexer
+# =====================================================================================
+
+def gen_f2(rng):
+    r = rng
+    pools = [(97, 104), (48, 57), (105, 112), (113, 122)]
+    r.shuffle(pools)
+    ncls = r.choice((1, 2, 3))
+    classes = pools[:ncls]
+    used = set()
+    for lo, hi in classes:
+        used |= set(range(lo, hi + 1))
+    puncts = r.sample([c for c in [ord(x) for x in "()[]{},;:=+-*<>"]], r.choice((1, 2, 3)))
+    spaces = [32] + ([10] if r.random() < 0.5 else [])
+    kws = []
+    lo, hi = classes[0]
+    for _ in range(r.choice((0, 1, 2))):
+        kw = bytes(r.randint(lo, hi) for _ in range(r.choice((2, 3, 4))))
+        if kw not in kws:
+            kws.append(kw)
+    codes = ["T%d" % i for i in range(ncls)] + ["P%d" % i for i in range(len(puncts))] + ["K%d" % i for i in range(len(kws))]
+    capture = r.random() < 0.4
+    spec = {"family": "F2", "classes": classes, "puncts": puncts, "spaces": spaces, "kws": [list(k) for k in kws], "codes": codes,
+            "capture": capture, "hook": r.random() < 0.4}
+    L = ["yieldcode %s;" % ", ".join(codes)]
+    if spec["hook"]:
+        L.append("hook tok;")
+    L += ["", "parser {", "    loop {", "        greedy case {"]
+    act = "tok(); " if spec["hook"] else ""
+    for i, (lo, hi) in enumerate(classes):
+        L.append("            /%s+/ -> { %syield T%d; }" % (cls_text(lo, hi), act, i))
+    for i, p in enumerate(puncts):
+        L.append("            %s -> { %syield P%d; }" % (esc([p]), act, i))
+    for i, kw in enumerate(kws):
+        L.append("            prio 1 %s -> { %syield K%d; }" % (esc(kw), act, i))
+    L.append('            " " -> {}')
+    if len(spaces) > 1:
+        L.append('            "\\n" -> {}')
+    L += ["        }", "    }", "}"]
+    spec["source"] = "\n".join(L) + "\n"
+    spec["need"] = ["-fyield-support"]
+    return spec
+
+
+def f2_tokens(spec, data):
+    """maximal munch; returns ([(code, end_offset)], fail_at | None)"""
+    toks = []
+    i = 0
+    n = len(data)
+    kws = [bytes(k) for k in spec["kws"]]
+    while i < n:
+        c = data[i]
+        if c in spec["spaces"]:
+            i += 1
+            continue
+        if c in spec["puncts"]:
+            toks.append(("P%d" % spec["puncts"].index(c), i + 1, False))
+            i += 1
+            continue
+        hit = None
+        for ci, (lo, hi) in enumerate(spec["classes"]):
+            if lo <= c <= hi:
+                hit = ci
+                break
+        if hit is None:
+            return toks, i
+        lo, hi = spec["classes"][hit]
+        j = i
+        while j < n and lo <= data[j] <= hi:
+            j += 1
+        text = data[i:j]
+        code = "T%d" % hit
+        if hit == 0 and text in kws:
+            code = "K%d" % kws.index(text)
+        toks.append((code, j, j == n))   # third: token end needs lookahead that the input does not provide
+        i = j
+    return toks, None
+
+
+def check_f2(spec, data, canon, flags):
+    out = []
+    toks, fail_at = f2_tokens(spec, data)
+    obs = []
+    term = None
+    for st in canon.steps:
+        if st.cls == "YIELD":
+            obs.append((st.code[len("YIELD_"):], st.pos_after, st.i))
+        elif st.cls in ("FAIL", "DONE", "FINISH"):
+            term = (st.code, st.pos_after, st.i)
+            break
+    F = lambda kind, detail: out.append(oracles.V("F2", kind, -1, 0, detail + " input=" + data.hex()))
+    for k, (code, pos, byte) in enumerate(obs):
+        if k >= len(toks):
+            F("extra-token", "parser reported token %d %s at %d, the tokenizer finds only %d tokens" % (k, code, pos, len(toks)))
+            return out
+        if (code, pos) != (toks[k][0], toks[k][1]):
+            F("token-mismatch", "token %d: parser reported %s ending at %d, maximal munch gives %s ending at %d" % (k, code, pos, toks[k][0], toks[k][1]))
+            return out
+    consumed = term[2] if term else len(data)
+    # every token that ends strictly inside the consumed input must have been reported
+    for k in range(len(obs), len(toks)):
+        code, end, needs_lookahead = toks[k]
+        if end < consumed or (end == consumed and term is not None and term[0] == "FAIL" and False):
+            F("token-lost", "token %d %s ending at %d was never reported (parser consumed %d bytes, reported %d tokens)" % (k, code, end, consumed, len(obs)))
+            return out
+    if fail_at is not None:
+        if term is None or term[0] != "FAIL":
+            F("fail-missing", "byte %d cannot start a token, parser said %s" % (fail_at, term))
+        elif term[1] != fail_at:
+            F("fail-pointer", "FAIL pointer %d, offending byte %d" % (term[1], fail_at))
+    elif term is not None:
+        F("unexpected-terminal", "tokenizer accepts the whole input, parser returned %s at %d" % (term[0], term[1]))
+    return out
+
+
+def f2_inputs(rng, spec, count):
+    res = []
+    kws = [bytes(k) for k in spec["kws"]]
+    for _ in range(count):
+        parts = []
+        for _ in range(rng.choice((1, 2, 4, 7))):
+            k = rng.random()
+            if k < 0.45:
+                lo, hi = rng.choice(spec["classes"])
+                parts.append(bytes(rng.randint(lo, hi) for _ in range(rng.choice((1, 1, 2, 4)))))
+            elif k < 0.6 and kws:
+                kw = rng.choice(kws)
+                parts.append(kw + (bytes([kw[0]]) if rng.random() < 0.3 else b""))
+                if rng.random() < 0.3:
+                    parts[-1] = kw[:-1]
+            elif k < 0.8:
+                parts.append(bytes([rng.choice(spec["puncts"])]))
+            elif k < 0.95:
+                parts.append(bytes(rng.choice(spec["spaces"]) for _ in range(rng.choice((1, 2)))))
+            else:
+                parts.append(bytes([rng.choice((0, 255, 64, 126))]))
+        sep = b"" if rng.random() < 0.5 else b" "
+        res.append(sep.join(parts)[:64])
+    return res
+
+
+# =====================================================================================
+# F3 EOF / data separation
+# =====================================================================================
+
+F3_ANY = [("/./", "wild"), ("/[^x]/", "inv"), ("/\\W/", "W"), ("/\\D/", "D"), ("/\\S/", "S"), ("b/./", "bwild")]
+
+
+def gen_f3(rng):
+    r = rng
+    shape = r.choice(("records", "sep", "endelse"))
+    spec = {"family": "F3", "shape": shape}
+    if shape == "records":
+        rec = [r.choice(LET)] + [r.choice(LET + DIG) for _ in range(r.choice((0, 1, 2)))]
+        code = r.choice((None, "EOFC"))
+        spec.update({"rec": rec, "code": code})
+        L = ["out bool ok = false;", "out int n = 0;", "hook h;", "finishcode EOFC;", "", "parser {", "    loop {", "        case {",
+             "            %s -> { n = [n + 1]; h(); }" % esc(rec),
+             "            end -> { ok = true; %s }" % ("finish EOFC;" if code else "finish;"),
+             "        }", "    }", "}"]
+    elif shape == "sep":
+        pat, kind = r.choice(F3_ANY)
+        pre = [r.choice(LET)]
+        spec.update({"pat": pat, "kind": kind, "pre": pre})
+        L = ["out bool ok = false;", "hook a;", "hook done;", "", "parser {", "    %s;" % esc(pre), "    %s;" % pat, "    a();", "    end;",
+             "    ok = true;", "    done();", "}"]
+    else:
+        pre = [r.choice(LET)]
+        spec.update({"pre": pre})
+        L = ["hook ha;", "hook hb;", "", "parser {", "    %s;" % esc(pre), "    case {", "        end -> { ha(); }", "        else -> { hb(); }", "    }", "}"]
+    spec["source"] = "\n".join(L) + "\n"
+    spec["need"] = ["-feof-support"]
+    return spec
+
+
+def f3_inputs(rng, spec, count):
+    res = []
+    if spec["shape"] == "records":
+        rec = bytes(spec["rec"])
+        for _ in range(count):
+            k = rng.choice((0, 1, 2, 3))
+            x = rec * k
+            r = rng.random()
+            if r < 0.3:
+                x += rec[:rng.randrange(len(rec) + 1)]
+            elif r < 0.5:
+                x += bytes([255])
+            elif r < 0.6:
+                x += bytes([rng.choice(LET)])
+            res.append(x)
+    elif spec["shape"] == "sep":
+        pre = bytes(spec["pre"])
+        for b in (255, 0, ord("x"), ord("a"), ord("5"), 32, 10):
+            res.append(pre + bytes([b]))
+            res.append(pre + bytes([b, 255]))
+        res.append(pre)
+        res.append(b"")
+    else:
+        pre = bytes(spec["pre"])
+        res += [pre, pre + b"\xff", pre + b"\xffz", pre + b"q", b""]
+    return res[:max(count, 6)]
+
+
+def f3_matches(kind, b):
+    if kind in ("wild", "bwild"):
+        return True
+    if kind == "inv":
+        return b != ord("x")
+    c = chr(b)
+    if kind == "W":
+        return not (c.isalnum() and b < 128 or c == "_")
+    if kind == "D":
+        return not (48 <= b <= 57)
+    if kind == "S":
+        return c not in " \t\n\r\x0b\x0c"
+    return True
+
+
+def check_f3(spec, data, canon, flags):
+    """end() after every prefix against the closed-form expectation."""
+    out = []
+    if not canon.has_end:
+        return out
+    n = len(data)
+    idx = {}
+    for j, st in enumerate(canon.steps):
+        idx.setdefault(st.i, j)
+    idx[n] = len(canon.steps) if (not canon.steps or canon.steps[-1].cls == "OK") else None
+    F = lambda kind, detail: out.append(oracles.V("F3", kind, -1, 0, detail + " input=" + data.hex()))
+    for i in range(n + 1):
+        j = idx.get(i)
+        if j is None or j >= len(canon.eofs) or canon.eofs[j] is None:
+            continue
+        if canon.terminal_at is not None and j > canon.terminal_at:
+            break
+        pre = data[:i]
+        group = canon.eofs[j]
+        code = group[-1].code
+        hooks = [e[0] for c in group for e in c.events]
+        snap = group[-1].snap
+        if spec["shape"] == "records":
+            rec = bytes(spec["rec"])
+            whole = len(pre) % len(rec) == 0 and pre == rec * (len(pre) // len(rec))
+            if whole:
+                want = "FINISH_EOFC" if spec["code"] else "DONE"
+                if code != want:
+                    F("end-at-record-boundary", "end() after %d whole records returned %s, expected %s" % (len(pre) // len(rec), code, want))
+                    return out
+                if "ok=1" not in snap or ("n=%d" % (len(pre) // len(rec))) not in snap.split(";"):
+                    F("end-clause-actions", "after the end clause outputs are %s" % snap)
+                    return out
+            else:
+                good_prefix = (rec * (len(pre) // len(rec) + 1)).startswith(pre)
+                if good_prefix and code != "FAIL":
+                    F("end-inside-record", "end() inside a record returned %s" % code)
+                    return out
+        elif spec["shape"] == "sep":
+            p = bytes(spec["pre"])
+            if len(pre) < len(p) + 1 and p.startswith(pre[:len(p)]):
+                if code != "FAIL":
+                    F("data-pattern-matched-eof", "end() before %s consumed a byte returned %s (prefix %s)" % (spec["pat"], code, pre.hex()))
+                    return out
+                if hooks:
+                    F("hook-on-eof-before-pattern", "hooks %s fired" % hooks)
+                    return out
+            elif len(pre) == len(p) + 1 and pre[:len(p)] == p and f3_matches(spec["kind"], pre[-1]):
+                if code != "DONE" or hooks.count("done") != 1 or "ok=1" not in snap:
+                    F("end-after-data-byte", "%s matched data byte %02x, then end(): code %s hooks %s outputs %s (expected DONE, a/done once, ok)" % (
+                        spec["pat"], pre[-1], code, hooks, snap))
+                    return out
+        else:
+            p = bytes(spec["pre"])
+            if pre == p:
+                if code != "DONE" or hooks != ["ha"]:
+                    F("end-clause-selection", "end() at the case: code %s hooks %s (expected DONE, [ha])" % (code, hooks))
+                    return out
+    # feed side: the data byte 0xFF must take the else clause, never the end clause
+    if spec["shape"] == "endelse":
+        p = bytes(spec["pre"])
+        if len(data) > len(p) and data[:len(p)] == p:
+            fired = [e[0] for st in canon.steps for e in st.events]
+            if "ha" in fired:
+                F("end-matched-data-byte", "the `end` clause ran on data byte %02x" % data[len(p)])
+    if spec["shape"] == "records":
+        rec = bytes(spec["rec"])
+        fired = sum(1 for st in canon.steps for e in st.events if e[0] == "h")
+        k = 0
+        while data[k * len(rec):(k + 1) * len(rec)] == rec:
+            k += 1
+        if canon.terminal_at is None or canon.steps[canon.terminal_at].i >= k * len(rec):
+            if fired < k - 1 or fired > k:
+                F("record-hook-count", "%d whole records, hook fired %d times" % (k, fired))
+    return out
+
+
+# =====================================================================================
+# plumbing: units, engine callback, check entry
+# =====================================================================================
+
+GEN = {"F1": gen_f1, "F2": gen_f2, "F3": gen_f3}
+
+
+def check_canon(fam, data, canon, flags):
+    """called by the engine after each canonical pass of a family unit"""
+    name = fam["family"]
+    if name == "F1":
+        return check_f1(fam, data, canon, flags) + check_f1_eof(fam, data, canon, flags)
+    if name == "F2":
+        return check_f2(fam, data, canon, flags)
+    if name == "F3":
+        return check_f3(fam, data, canon, flags)
+    return []
+
+
+FAMILY_TIER = {"quick": 260, "thorough": 4000}
+
+
+def family_tasks(prop, tier, root):
+    n = FAMILY_TIER[tier]
+    tasks = []
+    mix = {"C10": ("F1", "F1", "F2", "F2"), "C17": ("F1", "F3", "F3", "F1"), "C03": ("F1",)}[prop]
+    plan = {"n_inputs": 0, "maxlen": 64, "n_sched": 3, "exhaustive_n": 5, "n_multi": 1, "single_cuts": tier == "thorough",
+            "faults": ["cut", "retail", "reloc", "ystop", "eof", "post", "zero"], "want": ["L2", "LAWS"]}
+    for i in range(n):
+        idx = 500000 + i
+        fam = mix[i % len(mix)]
+        rng = sched.rng_for(root, "family-" + fam, idx)
+        force = None
+        if fam == "F1":
+            if prop == "C17":
+                force = {"tail": rng.choice(("end", "end", "done")), "try": rng.choice(("f4", "nomatch-wait", "none"))}
+            elif prop == "C03":
+                force = {"try": rng.choice(("oos-finish", "oos-wait", "oos-wait", "none"))}
+            spec = gen_f1(rng, force)
+            xs = f1_inputs(rng, spec, 10)
+        elif fam == "F2":
+            spec = gen_f2(rng)
+            xs = f2_inputs(rng, spec, 10)
+        else:
+            spec = gen_f3(rng)
+            xs = f3_inputs(rng, spec, 8)
+        ro = sched.rng_for(root, "family-options", idx)
+        f = {"indirect": True} if prop == "C10" else {}
+        if prop == "C17":
+            f["eof"] = True
+        if prop == "C03":
+            f["storage"] = idx % 4
+        argv = workload.sample_argv(ro, need=spec["need"], force=f)
+        canaries = {o["name"]: 90 for o in spec.get("outputs", []) if o.get("canary")}
+        unit = {"label": "%s:%d" % (fam, idx), "source": spec["source"], "argv": argv, "must_inputs": [x.hex() for x in xs],
+                "family": {k: v for k, v in spec.items() if k != "source"}, "canaries": canaries}
+        tasks.append(("sim", root, idx, unit, plan))
+    return tasks
 
 
 def run(prop, tier, root, tree, workdir, workers):
-    return []
+    from . import checks
+    return checks.run_pool(family_tasks(prop, tier, root), workdir, tree, workers)
